@@ -8,6 +8,9 @@ UNITS = [
     {'name': 'shard_edge', 'backend': 'verus', 'tier': 'quick'},
     {'name': 'ef.builder', 'backend': 'verus', 'tier': 'quick'},
     {'name': 'ef.guards', 'backend': 'verus', 'tier': 'quick'},
+    {'name': 'rcl.str', 'backend': 'verus', 'tier': 'quick'},
+    {'name': 'rcl.read', 'backend': 'verus', 'tier': 'quick'},
+    {'name': 'k.rcl_int', 'backend': 'kani', 'tier': 'quick', 'props': ['C09', 'C12']},
     {'name': 'lenders.rewind', 'backend': 'verus', 'tier': 'quick', 'c12': False},
     {'name': 'bfv.core@u64', 'backend': 'verus', 'tier': 'quick'},
     {'name': 'bfv.core@usize', 'backend': 'verus', 'tier': 'quick'},
